@@ -19,6 +19,7 @@ type Cfg struct {
 	Delta   bool `json:"delta"`   // UseDeltaInterleaving
 	Hold    bool `json:"hold"`    // hold released garbage lists at the gate until an explicit GCUnlink
 	Guard   bool `json:"guard"`   // MM with the guard-page allocator (use after free faults immediately)
+	FixKey  bool `json:"fixkey"`  // keys of one length (runs of consecutive keys then have XOR-cancelling CRC32s: the shard checksum's weak spot)
 }
 
 // Mem is the allocator interface shared by the registry and the guard allocator.
@@ -144,7 +145,10 @@ func (d *DB) Shutdown() {
 var keyPad = []string{"", "_", "__", "___", "____", "_____"}
 
 func (d *DB) Item(k, v int) []byte {
-	key := []byte(fmt.Sprintf("k%04d", k) + keyPad[((k%6)*7+k/6)%6])
+	key := []byte(fmt.Sprintf("k%04d", k))
+	if !d.Cfg.FixKey {
+		key = append(key, keyPad[((k%6)*7+k/6)%6]...)
+	}
 	if d.Cfg.KV {
 		return nitro.KVToBytes(key, []byte(fmt.Sprintf("v%d", v)))
 	}
